@@ -315,17 +315,40 @@ def stale_masks(ctx, obs, rule='STALE-MASK'):
                 continue
             dirty = None
             bad = None
+            first_store = None      # the first store of any kind (constants included)
+            pos = {id(st): i for i, st in enumerate(f.node.body)}
+
+            def mask_eval_point(s_):
+                """(statement at which the mask of store s_ is computed, does it read arr)"""
+                sl = s_.targets[0].slice
+                if isinstance(sl, ast.Name):
+                    defs = [st for st in f.node.body if isinstance(st, ast.Assign) and isinstance(st.targets[0], ast.Name)
+                            and st.targets[0].id == sl.id and pos[id(st)] < pos[id(s_)]]
+                    if not defs:
+                        return s_, False
+                    d_ = defs[-1]
+                    return d_, any(isinstance(n, ast.Name) and n.id == arr for n in ast.walk(d_.value))
+                return s_, any(isinstance(n, ast.Name) and n.id == arr for n in ast.walk(sl))
             for s in masked:
-                reads_arr = any(isinstance(n, ast.Name) and n.id == arr for n in ast.walk(s.targets[0].slice))
-                if dirty is not None and reads_arr and bad is None:
-                    bad = (s, dirty)
+                at, reads_arr = mask_eval_point(s)
                 const_store = isinstance(s.value, ast.Constant) or (isinstance(s.value, ast.Attribute) and s.value.attr in ('nan', 'inf'))
+                if dirty is not None and reads_arr and pos[id(at)] > pos[id(dirty)] and bad is None:
+                    bad = (s, dirty)
+                # a COMPUTED update (the value read back from the array and mapped) whose mask is evaluated after earlier stores of
+                # constants: the constants just written may satisfy the mask (thresholds are symbolic) and get mapped as well
+                if not const_store and first_store is not None and reads_arr and pos[id(at)] > pos[id(first_store)] and bad is None \
+                        and any(isinstance(n, ast.Name) and n.id == arr for n in ast.walk(s.value)):
+                    lits = all(isinstance(c_, ast.Constant) for cmp_ in ast.walk(at) if isinstance(cmp_, ast.Compare) for c_ in cmp_.comparators)
+                    if not lits:
+                        bad = (s, first_store)
+                if first_store is None:
+                    first_store = s
                 if not const_store and dirty is None:
                     dirty = s
             con = f'the regions of the piecewise map on `{arr}` are determined from the original values'
             if bad:
-                obs.bad(rule, q, con, f'`{norm(bad[0])[:70]}` recomputes its mask from `{arr}` after `{norm(bad[1])[:60]}` has overwritten '
-                        f'part of it with mapped values: mapped values that satisfy the later condition are mapped a second time',
+                obs.bad(rule, q, con, f'the mask of `{norm(bad[0])[:70]}` is computed from `{arr}` after `{norm(bad[1])[:60]}` has overwritten '
+                        f'part of it: values written there that satisfy the later condition are mapped a second time',
                         where(prog, f, bad[0]))
             else:
                 obs.ok(rule, q, con, f'{len(masked)} masked updates', where(prog, f, masked[0]))
